@@ -111,6 +111,17 @@ def run(run, model, proof):
         from pel.datastream import DataStream
         _, js = peltool.parsePEL(DataStream(data, byte_order="big", is_signed=False), pelgen.make_config(True), False)
         run.count("end-to-end")
+        # the printed text itself is prettyPrint(json.dumps(doc, indent=4)) as modelled: dumps4 then pretty_print 34
+        try:
+            m = model.call("dumps4", (34).to_bytes(2, "big"), json.dumps(plain["doc"]))
+            md = dict(m[1]) if isinstance(m, tuple) else {}
+        except Exception:  # noqa: BLE001
+            md = {}
+        if "printed" in md and md["printed"] != js:
+            run.disagreements_checked += 1
+            run.violation("printed:model-vs-impl", "the text parsePEL returns is not pretty_print 34 (dumps4 doc)",
+                          dict(kind="M", fn="parsePEL", input_hex=data.hex(), correspondence="Model.JsonLoads.dumps4 + Model.Pretty.pretty_print vs parsePEL text",
+                               expected=md["printed"][:800], actual=js[:800]), no_input=True)
         try:
             ok = json.loads(js, object_pairs_hook=OrderedDict) == plain["doc"]
         except Exception:
@@ -253,7 +264,15 @@ def cli_dir(run, model, rng, nfiles, sub=False):
     import dirgen
     plugins = rng.random() < 0.6
     files = dirgen.gen_dir(model, rng, nfiles, plugins=plugins, junk=rng.randrange(0, 3))
-    bits = rng.choice([0, 0, 0, 1, rng.randrange(64)])       # 0: informational / hidden PELs are left out
+    if rng.random() < 0.5:
+        # a PEL whose document holds strings outside ASCII: accented and astral characters, a lone surrogate, control characters
+        # (BMC JSON user data; json.loads of "\ud83d" is a lone surrogate, which only an ASCII-escaping printer can write out)
+        notes = ["caf\u00e9 \u4e2d", "\U0001f600", "\\ud83d", "\\ude00x\\ud83d", "tab\\there", "\u2028\u00a0", "plain"]
+        body = ('{"Note": "%s", "%s": [1, "%s"]}' % (rng.choice(notes), rng.choice(["k", "cl\u00e9"]), rng.choice(notes))).encode("utf-8")
+        eid = 0x51000000 + rng.randrange(1 << 16)
+        files.append(("u%08X.pel" % eid, dirgen.set_ids(c04.mini_pel(b"O", [(b"UD", 1, 1, 0x2000, body)]), eid=eid), dict(kind="pel", eid=eid)))
+        files.sort(key=lambda f: rng.random())
+    bits = rng.choice([0, 0, 1, 1, rng.randrange(64)])       # 0: informational / hidden PELs are left out; 1: every PEL
     rev = rng.random() < 0.4
     run.evaluations += 1
     run.count("cli-dir")
@@ -264,7 +283,7 @@ def cli_dir(run, model, rng, nfiles, sub=False):
         base = ["-p", d] + sel + (["-r"] if rev else [])
         res = {m: runner(base + [m]) for m in ("-a", "-l")}
         single = {}
-        for name, data, meta in files[:3]:
+        for name, data, meta in files[:4]:
             single[name] = runner(["-f", os.path.join(d, name)] + sel)
         rj = runner(["-p", d, "-j"] + sel)
         written = {n: open(os.path.join(d, n), encoding="utf-8").read() for n in sorted(os.listdir(d)) if n.endswith(".json") and n not in [f[0] for f in files]}
@@ -288,12 +307,18 @@ def cli_dir(run, model, rng, nfiles, sub=False):
         except Exception as e:  # noqa: BLE001
             run.violation("cli:not-json:" + m, "stdout of peltool %s is not valid JSON (%s)" % (m, e), dict(rp, kind="S", mode=m, stdout=out[-400:]))
             continue
+        if m == "-a" and bits & 1 and isinstance(back, list) and len(back) != len(docs):
+            run.violation("cli:all-missing", "-a with --extended shows %d documents, %d files decode" % (len(back), len(docs)),
+                          dict(rp, kind="S", mode=m, stderr=err[-300:]))
         if m == "-a":
             for doc in back if isinstance(back, list) else []:
                 if differs(doc):
                     run.violation("cli:document-differs", "a document printed by -a differs from the decoded document at %s" % differs(doc),
                                   dict(rp, kind="S", mode=m))
     for name, (rc, out, err) in single.items():
+        if name in docs and bits & 1 and not out.strip():
+            run.violation("cli:file-output-missing", "peltool -f with --extended prints nothing for a PEL that decodes",
+                          dict(rp, kind="S", name=name, stderr=err[-300:]))
         if name in docs and out.strip():
             try:
                 ok = pelgen.first_diff(docs[name], json.loads(out, object_pairs_hook=OrderedDict)) is None
@@ -301,6 +326,10 @@ def cli_dir(run, model, rng, nfiles, sub=False):
                 ok = False
             if not ok:
                 run.violation("cli:file-output", "stdout of peltool -f does not parse back to the decoded document", dict(rp, kind="S", name=name, stdout=out[:600]))
+    if bits & 1:
+        for name in docs:
+            if not any(n.startswith(name + ".") for n in written):
+                run.violation("cli:json-file-missing", "-j with --extended wrote no file for a PEL that decodes", dict(rp, kind="S", name=name, stderr=rj[2][-300:]))
     for n, text in written.items():
         try:
             back = json.loads(text, object_pairs_hook=OrderedDict)
